@@ -554,7 +554,13 @@ impl Ev {
             Ev::Tick => "t".to_string(),
             Ev::Usable { src, on } => format!("u{src}:{}", *on as u8),
             Ev::Remove { src } => format!("r{src}"),
-            Ev::Run { classes, rounds, seed, dt, late } => format!("R{classes}:{rounds}:{seed}:{dt}:{}", *late as u8),
+            Ev::Run {
+                classes,
+                rounds,
+                seed,
+                dt,
+                late,
+            } => format!("R{classes}:{rounds}:{seed}:{dt}:{}", *late as u8),
         }
     }
     pub(super) fn decode(s: &str) -> Option<Ev> {
@@ -875,7 +881,11 @@ impl World {
                     steer: u.source_message.as_ref().map(|m| m.ga_fields()),
                     end: end.clone(),
                     view: self.ctrl.ga_view(),
-                    table: if kind <= 1 { self.ctrl.ga_table() } else { Vec::new() },
+                    table: if kind <= 1 {
+                        self.ctrl.ga_table()
+                    } else {
+                        Vec::new()
+                    },
                     local_now,
                 });
                 if end != End::Ok {
@@ -1126,9 +1136,8 @@ impl World {
                         self.events_executed += 1;
                         let (delay, offset, rdelay, rdisp) = match class {
                             b'W' => {
-                                let d = NtpDuration::from_seconds(
-                                    10e-3 + 1e-3 * lcg_jitter(&mut rng),
-                                );
+                                let d =
+                                    NtpDuration::from_seconds(10e-3 + 1e-3 * lcg_jitter(&mut rng));
                                 let o = NtpDuration::from_seconds(200e-6 * lcg_jitter(&mut rng));
                                 (
                                     d,
@@ -1138,9 +1147,8 @@ impl World {
                                 )
                             }
                             c => {
-                                let d = NtpDuration::from_seconds(
-                                    1.5e-6 + 1e-6 * lcg_jitter(&mut rng),
-                                );
+                                let d =
+                                    NtpDuration::from_seconds(1.5e-6 + 1e-6 * lcg_jitter(&mut rng));
                                 let o = NtpDuration::from_seconds(2e-6 * lcg_jitter(&mut rng));
                                 let disp = if c == b'M' {
                                     NtpDuration::from_seconds(1e-6)
@@ -1173,9 +1181,7 @@ impl World {
                                 self.chan.push_back((id, ChanMsg::Source(m)));
                             }
                             Ok(None) => tr.produced.push((si, None)),
-                            Err(m) => {
-                                self.kill(End::Panic("source.handle_measurement".into(), m))
-                            }
+                            Err(m) => self.kill(End::Panic("source.handle_measurement".into(), m)),
                         }
                         self.drain(&mut tr);
                         self.view_sources(&mut tr);
